@@ -35,7 +35,8 @@ Section Canon.
   Proof.
     intros W. destruct x as [| | |op args| | | |]; try (simpl in W; discriminate); try (apply good_refl; exact W).
     unfold canon_cb. destruct (is_assoc op) eqn:A; [|apply good_refl; exact W].
-    destruct (wf_op_inv IdQ _ _ W) as (Wl & a & r & -> & _ & Sl).
+    assert (NS : is_shift op = false) by (unfold is_assoc in A; unfold is_shift; destruct (opk_of op); try discriminate; reflexivity).
+    destruct (wf_op_inv IdQ _ _ W NS) as (Wl & a & r & -> & _ & Sl).
     assert (Hn : 0 < size a) by (inversion Wl; subst; apply (wf_range IdQ rho mu iota); assumption).
     assert (K : exists k, aop_of op = Some k) by (unfold is_assoc in A; unfold aop_of; destruct (opk_of op); try discriminate; eauto).
     destruct K as [k K].
